@@ -199,26 +199,43 @@ func runC09(p *Prog, r *Report, tier string) {
 				return
 			}
 			kind, badSucc := "", 0
-			switch c := i.Cond.(type) {
-			case *ssa.Extract:
+			cond := i.Cond
+			neg := false
+			for {
+				u, ok := cond.(*ssa.UnOp)
+				if !ok || u.Op != token.NOT {
+					break
+				}
+				cond, neg = u.X, !neg
+			}
+			if c, ok := cond.(*ssa.Extract); ok {
 				if lk, ok := c.Tuple.(*ssa.Lookup); ok && c.Index == 1 {
 					if tn, fn, _, ok := loadedField(lk.X); ok && tn+"."+fn == "pkg/exporter.ExportingProcess.templatesMap" {
 						kind, badSucc = "template known", 1
-					}
-				}
-			case *ssa.BinOp:
-				l, isL := c.X.(*ssa.Call)
-				if isL && calleeName(&l.Call) == "iface:pkg/entities.Record.GetFieldCount" && (c.Op == token.NEQ || c.Op == token.EQL) {
-					kind = "field count equal"
-					if c.Op == token.EQL {
-						badSucc = 1
-					}
-				}
-				if isL {
-					if b, ok := l.Call.Value.(*ssa.Builtin); ok && b.Name() == "len" && c.Op == token.LSS {
-						if gb, ok := l.Call.Args[0].(*ssa.Call); ok && calleeName(&gb.Call) == "iface:pkg/entities.Record.GetBuffer" {
-							kind = "minimum length"
+						if neg {
+							badSucc = 0
 						}
+					}
+				}
+			}
+			for _, cf := range cmpForms(i.Cond) {
+				l, isL := stripChange(cf.X).(*ssa.Call)
+				if !isL {
+					if cv, ok := stripChange(cf.X).(*ssa.Convert); ok {
+						l, isL = cv.X.(*ssa.Call)
+					}
+				}
+				if !isL {
+					continue
+				}
+				// "fieldCount != expected" holds on the failing edge
+				if calleeName(&l.Call) == "iface:pkg/entities.Record.GetFieldCount" && cf.Op == token.NEQ {
+					kind, badSucc = "field count equal", cf.Succ
+				}
+				// "len(rec.GetBuffer()) < min" holds on the failing edge
+				if b, ok := l.Call.Value.(*ssa.Builtin); ok && b.Name() == "len" && cf.Op == token.LSS {
+					if gb, ok := l.Call.Args[0].(*ssa.Call); ok && calleeName(&gb.Call) == "iface:pkg/entities.Record.GetBuffer" {
+						kind, badSucc = "minimum length", cf.Succ
 					}
 				}
 			}
